@@ -1,4 +1,5 @@
 import DoitModel.Model.Basic
+import DoitModel.Model.Sel
 /-! # M7 — `doit clean` (`doit/cmd_clean.py`, `Task.clean` / `clean_targets` of `doit/task.py`)
       and the selection part of M8 that `Clean._execute` uses.
 
@@ -161,17 +162,9 @@ structure Req where
   forget : Bool
 deriving Repr
 
-/-- `fnmatch.fnmatch` on the alphabet the generators use: `*`, `?`, literal characters -/
-def glob : List Char → List Char → Bool
-  | [], [] => true
-  | [], _ :: _ => false
-  | '*' :: p, [] => glob p []
-  | '*' :: p, c :: s => glob p (c :: s) || glob ('*' :: p) s
-  | '?' :: _, [] => false
-  | '?' :: p, _ :: s => glob p s
-  | _ :: _, [] => false
-  | a :: p, c :: s => a == c && glob p s
-termination_by p s => p.length + s.length
+/-- `fnmatch.fnmatch` (`cmd_clean.py`: `fnmatch.fnmatch(t.name, name)`): the matcher of M8 — `*`, `?`, bracket classes as
+    CPython 3.12's `fnmatch.translate` reads them, literals; specified by `C12.glob_spec_full` -/
+def glob (p s : List Char) : Bool := DoitModel.Sel.glob p s
 
 def resolve (tbl : Table) (arg : List Char) : Option Name :=
   let i := tbl.findIdx (fun t => t.label == arg)
